@@ -470,8 +470,22 @@ func (c *Ctx) c09PipelineCase(mode int, groups int) {
 				seams++
 			}
 		}
+		cand := c.c09Group(siteCtr(site), R, cpu, strength)
+		// AddField adds (+=): the padded sample boxes of different groups must not overlap, or the canvas would hold
+		// the SUM of two fields instead of their union (Box domains grow by strength/2 WORLD units = many cells at
+		// a fine resolution)
+		clash := false
+		for _, g := range gl {
+			if c09SampleBoxesOverlap(g.shapes, cand, cpu) {
+				clash = true
+			}
+		}
+		if clash {
+			c.Note("pipe.group.rejected-overlapping-domain")
+			continue
+		}
 		c.Note(fmt.Sprintf("pipe.group.on-%d-seams", seams))
-		gl = append(gl, grp{c.c09Group(siteCtr(site), R, cpu, strength)})
+		gl = append(gl, grp{cand})
 	}
 	c.Note(fmt.Sprintf("pipe.cpu=%g", cpu))
 	if m[0] < -1 || m[1] < -1 || m[2] < -1 {
@@ -548,6 +562,10 @@ type c09AlignedCase struct {
 const c09Strict = "c09.holds.closed"
 const c09Witness = "c09.holds.closed_touching_at_cutoff_witness"
 
+// second known-finding class: an axis-aligned capsule with whole-cell radius whose axis is a lattice line, at a
+// non-dyadic resolution (5, 10 cubes per unit): sdf.Line is -2.2e-16 instead of 0 on a whole lattice LINE of samples
+const c09NoiseLine = "c09.holds.closed_cutoff_noise_line_witness"
+
 func c09SphereC(cpu, x, y, z, r float64) c09Shape {
 	return c09Shape{kind: 0, a: c09Cells(cpu, x, y, z), r: r / cpu, strength: 1}
 }
@@ -571,7 +589,8 @@ func c09AlignedCatalogue() []c09AlignedCase {
 		{"box on lattice planes @5cpu, one block", 5, 0, one(c09BoxC(5, 15, 15, 15, 10, 10, 10)), c09Strict},
 		{"box on lattice planes at decimal coordinates @10cpu, one block", 10, 0, one(c09BoxC(10, 15, 17, 21, 6, 8, 10)), c09Strict},
 		{"box on lattice planes @1cpu, one block (negative block)", 1, 0, one(c09BoxC(1, -50, -50, -50, 6, 4, 8)), c09Strict},
-		{"axis capsule, radius 3 cells @5cpu, one block", 5, 0, one(c09CapsuleC(5, 10, 10, 10, 20, 10, 10, 3)), c09Strict},
+		{"axis capsule, radius 3 cells @5cpu, one block (float-noise class; this one happens to be closed)", 5, 0, one(c09CapsuleC(5, 10, 10, 10, 20, 10, 10, 3)), c09NoiseLine},
+		{"axis capsule, radius 3 cells @2cpu, one block", 2, 0, one(c09CapsuleC(2, 10, 10, 10, 20, 10, 10, 3)), c09Strict},
 		{"slanted capsule between grid points, radius 4 cells @10cpu, one block", 10, 0, one(c09CapsuleC(10, 20, 20, 20, 40, 30, 24, 4)), c09Strict},
 		{"two spheres tangent at a grid point @5cpu, one block", 5, 0, []c09Shape{c09SphereC(5, 20, 25, 25, 5), c09SphereC(5, 30, 25, 25, 5)}, c09Strict},
 		{"two boxes sharing a lattice edge @2cpu, one block", 2, 0, []c09Shape{c09BoxC(2, 4, 4, 6, 4, 4, 4), c09BoxC(2, 8, 8, 6, 4, 4, 4)}, c09Strict},
@@ -581,11 +600,18 @@ func c09AlignedCatalogue() []c09AlignedCase {
 		{"sphere r=1.3 @10cpu centred on a seam of two axes", 10, 0, one(c09SphereC(10, 100, 100, 40, 13)), c09Strict},
 		{"box on lattice planes @4cpu centred on the origin", 4, 0, one(c09BoxC(4, 0, 0, 0, 8, 8, 8)), c09Strict},
 		{"box with a face ON the seam plane @5cpu", 5, 0, one(c09BoxC(5, 105, 15, 15, 10, 10, 10)), c09Strict},
-		{"axis capsule across a seam, radius 3 cells @5cpu", 5, 0, one(c09CapsuleC(5, 90, 15, 15, 110, 15, 15, 3)), c09Strict},
+		{"axis capsule across a seam, radius 3 cells @5cpu (float-noise class)", 5, 0, one(c09CapsuleC(5, 90, 15, 15, 110, 15, 15, 3)), c09NoiseLine},
+		{"axis capsule across a seam, radius 3 cells @8cpu", 8, 0, one(c09CapsuleC(8, 90, 15, 15, 110, 15, 15, 3)), c09Strict},
 		{"two spheres tangent at a seam grid point @5cpu", 5, 0, []c09Shape{c09SphereC(5, 95, 25, 25, 5), c09SphereC(5, 105, 25, 25, 5)}, c09Strict},
 		// known finding: two inside regions separated only by samples equal to the cutoff
 		{"WITNESS two boxes touching at the lattice plane x=0 @1cpu", 1, 0, []c09Shape{c09BoxC(1, -1.5, 0, 0, 3, 4, 4), c09BoxC(1, 1.5, 0, 0, 3, 4, 4)}, c09Witness},
 		{"two boxes touching at a lattice face @1cpu, one block", 1, 0, []c09Shape{c09BoxC(1, 11.5, 12, 12, 3, 4, 4), c09BoxC(1, 14.5, 12, 12, 3, 4, 4)}, c09Witness},
+		// known-finding class 2: lattice line of samples within float noise of the cutoff
+		{"WITNESS axis capsule (20,20,40)-(30,20,40) r=3 cells @5cpu, one block", 5, 0, one(c09CapsuleC(5, 20, 20, 40, 30, 20, 40, 3)), c09NoiseLine},
+		{"axis capsule r=4 cells @5cpu across two seams", 5, 0, one(c09CapsuleC(5, -5, 0, 39, 5, 0, 39, 4)), c09NoiseLine},
+		// the same capsules at dyadic resolutions are exact (samples EQUAL to the cutoff) and must be closed
+		{"axis capsule (20,20,40)-(30,20,40) r=3 cells @4cpu, one block", 4, 0, one(c09CapsuleC(4, 20, 20, 40, 30, 20, 40, 3)), c09Strict},
+		{"axis capsule r=4 cells @1cpu across two seams", 1, 0, one(c09CapsuleC(1, -5, 0, 39, 5, 0, 39, 4)), c09Strict},
 	}
 }
 
@@ -593,6 +619,9 @@ func (c *Ctx) c09RunAligned(a c09AlignedCase) {
 	c.Note("aligned.case")
 	if a.op == c09Witness {
 		c.Note("aligned.class.touching-at-face(known-finding)")
+	}
+	if a.op == c09NoiseLine {
+		c.Note("aligned.class.cutoff-noise-line(known-finding class 2)")
 	}
 	c.c09RunShapes("aligned", [][]c09Shape{a.shapes}, a.cpu, a.cutoff, a.op)
 }
@@ -645,6 +674,16 @@ func (c *Ctx) c09AlignedRandom() c09AlignedCase {
 		}
 		r := float64(2 + c.Rng.Intn(4))
 		a.shapes = []c09Shape{c09CapsuleC(cpu, ctr[0]-d[0], ctr[1]-d[1], ctr[2]-d[2], ctr[0]+d[0], ctr[1]+d[1], ctr[2]+d[2], r)}
+		nz := 0
+		for k := 0; k < 3; k++ {
+			if d[k] != 0 {
+				nz++
+			}
+		}
+		if nz == 1 && (cpu == 5 || cpu == 10) {
+			c.Note("aligned.random.axis-capsule-nondyadic(known-finding class 2)")
+			a.op = c09NoiseLine
+		}
 	case 5:
 		c.Note("aligned.random.spheres-tangent-at-grid-point")
 		R = float64(3 + c.Rng.Intn(5))
@@ -682,6 +721,30 @@ func (c *Ctx) c09AlignedRandom() c09AlignedCase {
 	}
 	a.cutoff = cutoff
 	return a
+}
+
+// padded lattice bounds [min, max] of the samples AddField writes for one group (CombineFields domain)
+func c09SampleBox(shapes []c09Shape, cpu float64) (lo, hi [3]float64) {
+	fields := make([]marching.Field, len(shapes))
+	for i, s := range shapes {
+		fields[i] = s.field()
+	}
+	d := marching.CombineFields(fields...).Domain
+	mn, mx := d.Min(), d.Max()
+	lo = [3]float64{math.Floor(mn.X()*cpu) - 2, math.Floor(mn.Y()*cpu) - 2, math.Floor(mn.Z()*cpu) - 2}
+	hi = [3]float64{math.Ceil(mx.X()*cpu) + 2, math.Ceil(mx.Y()*cpu) + 2, math.Ceil(mx.Z()*cpu) + 2}
+	return
+}
+
+func c09SampleBoxesOverlap(a, b []c09Shape, cpu float64) bool {
+	alo, ahi := c09SampleBox(a, cpu)
+	blo, bhi := c09SampleBox(b, cpu)
+	for k := 0; k < 3; k++ {
+		if ahi[k] < blo[k] || bhi[k] < alo[k] {
+			return false
+		}
+	}
+	return true
 }
 
 func c09Bucket(n int) int {
